@@ -9,6 +9,8 @@ import (
 	"go/token"
 	"go/types"
 	"math/big"
+	"os"
+	"path/filepath"
 	"sort"
 	"strings"
 
@@ -82,10 +84,17 @@ type Unit struct {
 	nfresh      int
 	notes       map[string]bool // abstractions / models used
 	heapSort    map[string]string
+	addrIds     map[string]int
+	mapTags     map[string]*types.Map
+	mapWFDone   map[string]bool
+	reachCache  map[string]bool
 	heapInfo    map[string]heapInfo
 	nextEpoch   int
 	oblCount    map[string]int
 	discovery   bool
+	record      bool
+	noObls      bool
+	newWrites   map[string]map[string]bool
 	pure        int
 	allowedMods map[string][]string
 	allowedAll  bool
@@ -214,7 +223,7 @@ func (u *Unit) check(fr *Frame, st *State, class, key, phi, desc string, pos tok
 	if u.discovery || st.dead || u.pure > 0 {
 		return nil
 	}
-	if u.classes != nil && !u.classes[class] && !u.classes["*"] {
+	if (u.classes != nil && !u.classes[class] && !u.classes["*"]) || u.noObls {
 		u.assume(st, phi)
 		return nil
 	}
@@ -245,8 +254,15 @@ func (u *Unit) hget(st *State, name, srt string) string {
 	if t, ok := st.heap[name]; ok {
 		return t
 	}
-	if _, ok := u.heapSort[name]; !ok {
+	if s0, ok := u.heapSort[name]; !ok || s0 == "" {
+		if srt == "" {
+			srt = builtinGhostSort(name)
+		}
 		u.heapSort[name] = srt
+	}
+	srt = u.heapSort[name]
+	if srt == "" {
+		panic("heap variable " + name + " used before its sort is known")
 	}
 	c := fmt.Sprintf("%s@%d", name, st.epoch)
 	if _, seen := u.reg.consts[c]; !seen {
@@ -255,6 +271,29 @@ func (u *Unit) hget(st *State, name, srt string) string {
 			a := fmt.Sprintf("$alloc@%d", st.epoch)
 			u.reg.declConst(a, sInt)
 			u.wfHeap(name, c, a)
+		}
+		if tag, ok := mapTagOf(name); ok {
+			if mt := u.mapTags[tag]; mt != nil {
+				// the three components of one epoch are materialised together and related by mapWF
+				var cs [3]string
+				for i, pfx := range []string{"Mdom_", "Mval_", "Mcard_"} {
+					n := pfx + tag
+					cs[i] = fmt.Sprintf("%s@%d", n, st.epoch)
+					if _, seen := u.reg.consts[cs[i]]; !seen {
+						u.reg.declConst(cs[i], u.heapSort[n])
+						if pfx == "Mval_" {
+							a := fmt.Sprintf("$alloc@%d", st.epoch)
+							u.reg.declConst(a, sInt)
+							u.wfHeap(n, cs[i], a)
+						}
+					}
+				}
+				key := fmt.Sprintf("%s@%d", tag, st.epoch)
+				if !u.mapWFDone[key] {
+					u.mapWFDone[key] = true
+					u.mapWF(tag, cs[0], cs[1], cs[2], u.sortOf(mt.Key()), u.zero(mt.Elem()))
+				}
+			}
 		}
 	}
 	st.heap[name] = c
@@ -274,6 +313,15 @@ func (u *Unit) hset(st *State, name, srt, term string) {
 func isLocalName(n string) bool { return strings.HasPrefix(n, "%") }
 
 func (u *Unit) havocAll(st *State, why string) {
+	if st.dead {
+		return
+	}
+	if u.unreachable(st) {
+		// the abstraction would only be applied on a path the precondition rules out: prune the path instead
+		st.dead = true
+		st.pc = "false"
+		return
+	}
 	u.note("havoc-all: " + why)
 	for _, s := range u.sinks {
 		s["*"] = true
@@ -304,9 +352,32 @@ func (u *Unit) havocName(st *State, name string) {
 		u.assume(st, sx(">=", n, old))
 		return
 	}
+	if tag, ok := mapTagOf(name); ok && u.mapTags[tag] != nil {
+		// havoc the three components of a map heap together so that mapWF can be re-stated for the new versions
+		mt := u.mapTags[tag]
+		var cs [3]string
+		for i, pfx := range []string{"Mdom_", "Mval_", "Mcard_"} {
+			n := pfx + tag
+			u.hget(st, n, u.heapSort[n])
+			cs[i] = u.fresh(n, u.heapSort[n])
+			u.hset(st, n, u.heapSort[n], cs[i])
+			u.wfHeap(n, cs[i], u.hget(st, "$alloc", sInt))
+		}
+		u.mapWF(tag, cs[0], cs[1], cs[2], u.sortOf(mt.Key()), u.zero(mt.Elem()))
+		return
+	}
 	c := u.fresh(name, srt)
 	u.hset(st, name, srt, c)
 	u.wfHeap(name, c, u.hget(st, "$alloc", sInt))
+}
+
+func mapTagOf(name string) (string, bool) {
+	for _, pfx := range []string{"Mdom_", "Mval_", "Mcard_"} {
+		if strings.HasPrefix(name, pfx) {
+			return strings.TrimPrefix(name, pfx), true
+		}
+	}
+	return "", false
 }
 
 // alloc returns a fresh reference.
@@ -507,13 +578,25 @@ func (fr *Frame) addrToRef(st *State, a *Addr) string {
 	for _, p := range a.path {
 		fn += fmt.Sprintf("_%d", p)
 	}
-	args := strings.TrimSpace(strings.Repeat("Int ", len(a.idx)))
-	u.reg.declFun(fn, args, sInt)
 	u.note("address-of field/element used as a value: " + a.heap)
-	if len(a.idx) == 0 {
-		return "(" + fn + ")"
+	return u.addrTerm(fn, a.idx)
+}
+
+// addrTerm: the address of a field (or element) as an integer that cannot collide with an object reference
+// or with the address of another field: -(4096*(4096*i0 + i1) + k), k the per-name ordinal (refs are >= 0).
+func (u *Unit) addrTerm(fn string, idx []string) string {
+	k, ok := u.addrIds[fn]
+	if !ok {
+		k = len(u.addrIds) + 1
+		u.addrIds[fn] = k
 	}
-	return sx(fn, a.idx...)
+	switch len(idx) {
+	case 0:
+		return fmt.Sprintf("(- %d)", k)
+	case 1:
+		return fmt.Sprintf("(- (- (* 4096 %s)) %d)", idx[0], k)
+	}
+	return fmt.Sprintf("(- (- (* 16777216 %s)) (* 4096 %s) %d)", idx[0], idx[1], k)
 }
 
 // addrOf yields the symbolic address denoted by pointer-valued v.
@@ -857,7 +940,7 @@ func (fr *Frame) run(entry *State) {
 					continue
 				}
 				ps := fr.out[p.Index]
-				if ps == nil {
+				if ps == nil || ps.dead {
 					continue
 				}
 				c := ps.pc
@@ -899,15 +982,15 @@ func (fr *Frame) run(entry *State) {
 		u.sinks = append(u.sinks, sink)
 		fr.execBlock(b, st, loops)
 		u.sinks = u.sinks[:len(u.sinks)-1]
-		if u.discovery {
+		if u.record {
 			for _, li := range loops {
 				if li.blocks[b.Index] {
 					key := fmt.Sprintf("%s#%d", u.eng.funcKey(fn), li.header)
-					if u.loopWrites[key] == nil {
-						u.loopWrites[key] = map[string]bool{}
+					if u.newWrites[key] == nil {
+						u.newWrites[key] = map[string]bool{}
 					}
 					for k := range sink {
-						u.loopWrites[key][k] = true
+						u.newWrites[key][k] = true
 					}
 				}
 			}
@@ -1266,7 +1349,7 @@ func (fr *Frame) execInstr(st *State, in ssa.Instruction) {
 	case *ssa.DebugRef:
 	case *ssa.Alloc:
 		et := x.Type().(*types.Pointer).Elem()
-		if _, isArr := et.Underlying().(*types.Array); !isArr && !x.Heap && privateAlloc(x) {
+		if _, isArr := et.Underlying().(*types.Array); !isArr && privateAlloc(x) {
 			// a frame-local variable whose address never escapes: its own variable, untouched by callees
 			name := fmt.Sprintf("%%loc_%s_%s", fr.tag, x.Name())
 			srt := u.sortOf(et)
@@ -1520,6 +1603,10 @@ func (u *Unit) mapHeaps(mt *types.Map) (dn, ds, vn, vs, cn string) {
 	vn = "Mval_" + tag
 	if _, ok := u.heapInfo[vn]; !ok {
 		u.heapInfo[vn] = heapInfo{levels: 2, keySort: ks, elemTy: mt.Elem()}
+		u.mapTags[tag] = mt
+		u.heapSort["Mdom_"+tag] = fmt.Sprintf("(Array Int (Array %s Bool))", ks)
+		u.heapSort["Mval_"+tag] = fmt.Sprintf("(Array Int (Array %s %s))", ks, vs0)
+		u.heapSort["Mcard_"+tag] = "(Array Int Int)"
 	}
 	return "Mdom_" + tag, fmt.Sprintf("(Array Int (Array %s Bool))", ks), vn, fmt.Sprintf("(Array Int (Array %s %s))", ks, vs0), "Mcard_" + tag
 }
@@ -1530,11 +1617,15 @@ type heapInfo struct {
 	elemTy  types.Type
 }
 
+// heapTag names the heap component that stores values of Go type t. Components are per Go type (Burstall-Bornat),
+// so objects of different types can never alias even though references are plain integers.
 func (u *Unit) heapTag(t types.Type) string {
-	if isPointerLike(t) {
-		return "Ref"
+	s := types.TypeString(t, shortQual)
+	tag := sanitize(s)
+	if len(tag) > 40 {
+		tag = tag[:28] + "_" + hash8(s)
 	}
-	return sortTag(u.sortOf(t))
+	return tag
 }
 
 func (u *Unit) elemHeapName(et types.Type) string {
@@ -1604,27 +1695,54 @@ func (u *Unit) mapStore(st *State, mt *types.Map, m, k, v string) {
 }
 
 func (u *Unit) mapDelete(st *State, mt *types.Map, m, k string) {
-	dn, ds, _, _, cn := u.mapHeaps(mt)
+	dn, ds, vn, vs, cn := u.mapHeaps(mt)
 	d := u.hget(st, dn, ds)
 	c := u.hget(st, cn, "(Array Int Int)")
 	had := sel(sel(d, m), k)
 	u.hset(st, cn, "(Array Int Int)", store(c, m, ite(had, sx("-", sel(c, m), "1"), sel(c, m))))
 	u.hset(st, dn, ds, store(d, m, store(sel(d, m), k, "false")))
+	vh := u.hget(st, vn, vs)
+	u.hset(st, vn, vs, store(vh, m, store(sel(vh, m), k, u.zero(mt.Elem()))))
 }
 
 func (u *Unit) mapHas(st *State, mt *types.Map, m, k string) string {
 	dn, ds, _, _, _ := u.mapHeaps(mt)
-	return and(not(eq(m, "0")), sel(sel(u.hget(st, dn, ds), m), k))
+	u.mapHeapsDeclared(st, mt)
+	return sel(sel(u.hget(st, dn, ds), m), k)
 }
 
 func (u *Unit) mapGet(st *State, mt *types.Map, m, k string) string {
 	_, _, vn, vs, _ := u.mapHeaps(mt)
-	return ite(u.mapHas(st, mt, m, k), sel(sel(u.hget(st, vn, vs), m), k), u.zero(mt.Elem()))
+	// absent keys (and the nil map, reference 0) hold the zero value: an invariant of the map heaps (mapWF)
+	u.mapHeapsDeclared(st, mt)
+	return sel(sel(u.hget(st, vn, vs), m), k)
+}
+
+// mapHeapsDeclared makes sure the three heap components of a map type exist in st (materialising them emits mapWF).
+func (u *Unit) mapHeapsDeclared(st *State, mt *types.Map) {
+	dn, ds, vn, vs, cn := u.mapHeaps(mt)
+	u.hget(st, dn, ds)
+	u.hget(st, vn, vs)
+	u.hget(st, cn, "(Array Int Int)")
+}
+
+// mapWF: relation between the domain, value and cardinality components of a map heap: values outside the domain are
+// zero, the nil map (reference 0) is empty, cardinalities are non-negative and zero exactly for empty domains.
+func (u *Unit) mapWF(tag, d, v, c, ks, zero string) {
+	if u.discovery {
+		return
+	}
+	u.assumeGlobal(fmt.Sprintf("(forall ((r Int) (k %s)) (! (=> (not (select (select %s r) k)) (= (select (select %s r) k) %s)) :pattern ((select (select %s r) k))))", ks, d, v, zero, v))
+	u.assumeGlobal(fmt.Sprintf("(forall ((k %s)) (! (not (select (select %s 0) k)) :pattern ((select (select %s 0) k))))", ks, d, d))
+	u.assumeGlobal(fmt.Sprintf("(forall ((r Int)) (! (>= (select %s r) 0) :pattern ((select %s r))))", c, c))
+	u.assumeGlobal(fmt.Sprintf("(= (select %s 0) 0)", c))
+	u.assumeGlobal(fmt.Sprintf("(forall ((r Int) (k %s)) (! (=> (select (select %s r) k) (> (select %s r) 0)) :pattern ((select (select %s r) k))))", ks, d, c, d))
 }
 
 func (u *Unit) mapLen(st *State, mt *types.Map, m string) string {
 	_, _, _, _, cn := u.mapHeaps(mt)
-	return ite(eq(m, "0"), "0", sel(u.hget(st, cn, "(Array Int Int)"), m))
+	u.mapHeapsDeclared(st, mt)
+	return sel(u.hget(st, cn, "(Array Int Int)"), m)
 }
 
 func (fr *Frame) execLookup(st *State, x *ssa.Lookup) {
@@ -2131,7 +2249,26 @@ func privateAlloc(a ssa.Value) bool {
 				return false
 			}
 		case *ssa.DebugRef:
+		case *ssa.MakeClosure:
+			// captured by a closure that is only ever started as a goroutine: goroutines are not interleaved with the
+			// function under proof (sequential assumption), so the variable stays private to this activation
+			crefs := x.Referrers()
+			if crefs == nil {
+				return false
+			}
+			for _, cr := range *crefs {
+				if _, isDbg := cr.(*ssa.DebugRef); isDbg {
+					continue
+				}
+				g, ok := cr.(*ssa.Go)
+				if !ok || g.Call.Value != ssa.Value(x) {
+					return false
+				}
+			}
 		default:
+			if os.Getenv("GOWP_DEBUG_ALLOC") != "" {
+				fmt.Fprintf(os.Stderr, "alloc %s not private: referrer %T %s\n", a.Name(), r, r)
+			}
 			return false
 		}
 	}
@@ -2163,4 +2300,46 @@ func (u *Unit) sidx(s, i string) string {
 	u.reg.declFun("sidx", "Slice Int", sInt)
 	u.reg.axiom("(assert (forall ((s Slice) (i Int)) (! (= (sidx s i) (+ (s_off s) i)) :pattern ((sidx s i)))))")
 	return sx("sidx", s, i)
+}
+
+func builtinGhostSort(name string) string {
+	switch name {
+	case "$atomic", "$lock":
+		return "(Array Int Int)"
+	case "$now", "$alloc":
+		return sInt
+	}
+	return ""
+}
+
+// unreachable asks the solver (2 s) whether the current path condition is refutable from the facts gathered so far.
+// Used only to avoid applying coarse abstractions on paths that the contract's precondition excludes.
+func (u *Unit) unreachable(st *State) bool {
+	if u.discovery || u.pure > 0 || st.pc == "true" {
+		return false
+	}
+	if st.pc == "false" {
+		return true
+	}
+	key := st.pc
+	if r, ok := u.reachCache[key]; ok {
+		return r
+	}
+	var b strings.Builder
+	b.WriteString(u.reg.prelude())
+	for _, l := range u.body {
+		b.WriteString(l)
+		b.WriteByte('\n')
+	}
+	b.WriteString("(assert " + st.pc + ")\n(check-sat)\n")
+	rq, _ := relaxQuery(b.String())
+	o := &Obligation{Query: rq}
+	solveOne(o, SolveCfg{TimeoutS: 2, TmpDir: filepath.Join(os.TempDir(), "gowp-q"), SolverSeq: []int{0}, NoRelax: true}, 0)
+	r := o.Result == "unsat"
+	if d := os.Getenv("GOWP_DEBUG_REACH"); d != "" {
+		os.WriteFile(fmt.Sprintf("%s/reach_%d.smt2", d, len(u.reachCache)), []byte(rq), 0o644)
+		fmt.Fprintf(os.Stderr, "reach[%s pass noObls=%v]: %s %.2fs pc=%s\n", u.root.Name(), u.noObls, o.Result, o.Time, st.pc)
+	}
+	u.reachCache[key] = r
+	return r
 }
